@@ -17,22 +17,28 @@ Theorem C16_order : forall d p rank,
 Proof. exact flush_order. Qed.
 Print Assumptions C16_order.
 
-(* A cycle of references between new objects (required or optional): flush does not produce a statement list and the commit leaves the
-   database exactly as it was.  (That the error is UnresolvableCyclicDependency rather than the model's fuel exhaustion is checked
-   against the implementation on every run.) *)
+(* flush never gives up for lack of fuel: for every pending set whatsoever the result is a statement list or the cycle error
+   (dependent_objects has no repetitions and only holds queued objects, which bounds the depth of the recursion). *)
+Theorem C16_no_fuel : forall p, flush p <> FFuel.
+Proof. exact flush_no_fuel. Qed.
+Print Assumptions C16_no_fuel.
+
+(* A cycle of references between new objects (required or optional): flush reports UnresolvableCyclicDependency (the cycle error,
+   not fuel exhaustion) and the commit leaves the database exactly as it was. *)
 Theorem C16_cycle : forall d p cyc, on_cycle (p_queue p) cyc ->
-  (forall ss, flush p <> FOk ss) /\ commit d p = (d, false).
-Proof. exact flush_cycle. Qed.
+  (exists chain, flush p = FCycle chain) /\ commit d p = (d, false).
+Proof. exact flush_cycle_error. Qed.
 Print Assumptions C16_cycle.
 
-(* non-vacuity: a child created before its parent and a grandchild created before both (queue order G, C, P with G -> C -> P) on top of
-   a stored row 9 that is deleted after its referrer 8 has been updated away from it; and a two-cycle *)
+(* non-vacuity: grandchild, child, parent queued in the wrong order (3 -> 2 -> 1) on top of stored rows; row 8 references row 9 through an
+   ON DELETE SET NULL column (odd id) and is NOT updated before 9 is deleted: the database nulls it; object 9 sits twice in the queue;
+   and a two-cycle gives the cycle error *)
 Example C16_nonvacuous :
-  let d := mkdb [(9, []); (8, [(1, Some 9)])] [] in
-  let p := mkpending [mkobj 3 Created [(1, Some 2)]; mkobj 2 Created [(1, Some 1)]; mkobj 8 Modified [(1, Some 1)];
-                      mkobj 1 Created [(1, None)]; mkobj 9 Deleted []] [(1, 8)] [] in
+  let d := mkdb [(9, []); (8, [(1, Some 9)]); (7, [(2, Some 9)])] [] in
+  let p := mkpending [mkobj 3 Created [(2, Some 2)]; mkobj 2 Created [(2, Some 1)]; mkobj 7 Modified [(2, Some 1)];
+                      mkobj 9 Deleted []; mkobj 1 Created [(2, None)]; mkobj 9 Deleted []] [(1, 8)] [] in
   wf_pending d p = true /\
-  flush p = FOk [SInsert 1 [(1, None)]; SInsert 2 [(1, Some 1)]; SInsert 3 [(1, Some 2)]; SUpdate 8 [(1, Some 1)]; SDelete 9; SLinkIns 1 8] /\
-  snd (commit d p) = true /\
-  flush (mkpending [mkobj 1 Created [(1, Some 2)]; mkobj 2 Created [(1, Some 1)]] [] []) = FCycle [1; 2; 1].
+  flush p = FOk [SInsert 1 [(2, None)]; SInsert 2 [(2, Some 1)]; SInsert 3 [(2, Some 2)]; SUpdate 7 [(2, Some 1)]; SDelete 9; SLinkIns 1 8] /\
+  fst (commit d p) = mkdb [(3, [(2, Some 2)]); (2, [(2, Some 1)]); (1, [(2, None)]); (8, [(1, None)]); (7, [(2, Some 1)])] [(1, 8)] /\
+  flush (mkpending [mkobj 1 Created [(2, Some 2)]; mkobj 2 Created [(2, Some 1)]] [] []) = FCycle [1; 2; 1].
 Proof. vm_compute. repeat split; reflexivity. Qed.
